@@ -267,12 +267,24 @@ Decode(d) ==
 (* expected descriptor after write -> read *)
 ReadBack(sol) == Decode(AbstractDoc(sol))
 
+(* State order.  `steps` is the order in which the states stand in the written document: the writer emits a   *)
+(* trajectory's state list in list order (Trajectory only requires state_list[1].time_step = initial time   *)
+(* step, so lists such as 3,5,4,6 or 2,0,1 are solutions), and a document may be handed to the reader        *)
+(* directly.  The statement promises the time steps back in ASCENDING order; every state keeps its values:   *)
+(* read-back position r holds the written state SrcState(steps, r).  `route` says how the document was made  *)
+(* ("writer": Trajectory built in `steps` order and dumped; "doc": ascending solution dumped, state nodes    *)
+(* then put in `steps` order) - the contract is the same for both.                                            *)
+Routes == {"writer", "doc"}
+SrcState(steps, r) == IdxOf(steps, Asc(steps)[r])
+
 (* what the statement compares, taken from the solution itself *)
 Carried(sol) ==
   [err |-> "", vids |-> [i \in 1..Len(sol.pps) |-> VId(sol.pps[i])],
    cids |-> [i \in 1..Len(sol.pps) |-> sol.pps[i].cost], scen |-> sol.scen,
    trajs |-> [i \in 1..Len(sol.pps) |-> [kind |-> sol.pps[i].kind, ppid |-> sol.pps[i].ppid,
-                                          steps |-> Asc(sol.pps[i].steps), vals |-> sol.pps[i].vals]],
+                                          steps |-> Asc(sol.pps[i].steps),
+                                          vals |-> [r \in 1..Len(sol.pps[i].steps) |->
+                                                      sol.pps[i].vals[SrcState(sol.pps[i].steps, r)]]]],
    ct |-> sol.ct, date |-> sol.date, proc |-> sol.proc]
 
 (* ------------------------------ laws checked by TLC on the specification ------------ *)
